@@ -103,6 +103,22 @@ def _permute(arr, seed):
     return arr.as_dataframe(arr.data.iloc[order].reset_index(drop=True))
 
 
+def _by_class(a):
+    """do_fix recomposed from its per-class building blocks with the documented assignment of corrections"""
+    import warnings
+    warnings.simplefilter("ignore")
+    from cnvlib import fix
+    cn, refm = fix.load_adjust_coverages(a["target"], a["reference"], True, a["do_gc"], a["do_edge"], False, None)
+    an, refa = fix.load_adjust_coverages(a["antitarget"], a["reference"], False, a["do_gc"], False, a["do_rmask"], None)
+    if len(an):
+        cn.add(an)
+        refm.add(refa)
+    cn.data["log2"] -= refm["log2"]
+    cn = fix.apply_weights(cn, refm, "log2", "spread")
+    cn.center_all(skip_low=True)
+    return cn
+
+
 def _call_fix(fn, a):
     base = _run_fix(a)
     other = None
@@ -118,7 +134,7 @@ def _call_fix(fn, a):
     elif a["variant"] == "permuted":
         other = _run_fix(a, _permute(a["target"], a["perm_seed"]), _permute(a["antitarget"], a["perm_seed"] + 1),
                          _permute(a["reference"], a["perm_seed"] + 2))
-    return dict(base=base, other=other)
+    return {"base": base, "other": other, "__expected_by_class__": _by_class(a)}
 
 
 def _chk_fix(args, res, old):
@@ -146,9 +162,11 @@ def _chk_fix(args, res, old):
     if got != exp:
         return "fix emits %d bins, expected the %d sample bins whose reference bin passes the filters, in genomic order; first differences %r" % (
             len(got), len(exp), [(g, e) for g, e in zip(got, exp) if g != e][:3])
+    if out.data["log2"].isnull().any():
+        return "fix emits missing log2 values (%d of %d bins)" % (int(out.data["log2"].isnull().sum()), len(out))
     # weights
     w = out.data["weight"].values
-    if (w < 1e-4 - 1e-15).any() or (w > 1.0 + 1e-15).any():
+    if not ((w >= 1e-4 - 1e-15) & (w <= 1.0 + 1e-15)).all():
         return "weights outside [0.0001, 1]: min %r max %r" % (w.min(), w.max())
     # corrections off: sample - reference + one constant per class
     if not (old["do_gc"] or old["do_edge"] or old["do_rmask"]):
@@ -163,7 +181,7 @@ def _chk_fix(args, res, old):
     auto = ok[ok.chromosome.str.match(r"(chr)?\d+$")]
     if len(auto):
         med = float(np.median([float(np.median(g.log2.values)) for _c, g in auto.groupby("chromosome", sort=False)]))
-        if abs(med) > 1e-9:
+        if not abs(med) <= 1e-9:
             return "output not centred: median of autosomal chromosome medians is %r" % med
     # weight monotonicity within a class: equal reference spread -> larger bin not lighter; equal size -> larger spread not heavier
     rows = [(o, refkey[(o.chromosome, o.start, o.end)]) for o in out.data.itertuples(index=False)]
@@ -175,6 +193,16 @@ def _chk_fix(args, res, old):
                 return "weight decreases with bin size: %r vs %r" % ((s1, o1.weight), (s2, o2.weight))
             if s1 == s2 and r1.spread < r2.spread and o1.weight + 1e-12 < o2.weight:
                 return "weight increases with reference spread: %r vs %r" % ((r1.spread, o1.weight), (r2.spread, o2.weight))
+    # which correction applies to which class: edge (and gc) on-target, rmask (and gc) off-target -- recomputed from the
+    # per-class building block load_adjust_coverages (itself under the single-correction contract)
+    if (old["do_gc"] or old["do_edge"] or old["do_rmask"]) and "__expected_by_class__" in res:
+        exp_df = res["__expected_by_class__"].data.reset_index(drop=True)
+        got_df = out.data.reset_index(drop=True)
+        if len(exp_df) == len(got_df):
+            dd = float(np.abs(exp_df.log2.values - got_df.log2.values).max()) if len(got_df) else 0.0
+            if not dd <= 1e-9:
+                return ("corrections gc=%s edge=%s rmask=%s: result differs (max %r) from edge on on-target bins only and "
+                        "rmask on off-target bins only" % (old["do_gc"], old["do_edge"], old["do_rmask"], dd))
     # invariance under depth rescaling / row permutation
     if res["other"] is not None:
         a, b = out.data.reset_index(drop=True), res["other"].data.reset_index(drop=True)
@@ -182,7 +210,7 @@ def _chk_fix(args, res, old):
             return "%s inputs change the emitted bins or their order" % old["variant"]
         d = float(np.abs(a.log2.values - b.log2.values).max()) if len(a) else 0.0
         dw = float(np.abs(a.weight.values - b.weight.values).max()) if len(a) else 0.0
-        if d > 1e-9 or dw > 1e-9:
+        if not (d <= 1e-9 and dw <= 1e-9):
             return "%s inputs change the result: max |dlog2| = %r, max |dweight| = %r (corrections gc=%s edge=%s rmask=%s, %d antitarget bins)" % (
                 old["variant"], d, dw, old["do_gc"], old["do_edge"], old["do_rmask"], len(old["antitarget"]))
 
@@ -237,10 +265,8 @@ def _gen_corr(rng, tier, i):
     d = _fix_case(rng, tier, pooled=True)
     which = ["gc", "edge", "rmask"][i % 3]
     d.update(do_gc=which == "gc", do_edge=which == "edge", do_rmask=which == "rmask", which=which)
-    d["antitarget"] = d["antitarget"][:0]
-    if which == "rmask":
-        # the rmask correction applies to off-target bins: use the off-target class alone as "antitarget"
-        pass
+    if which != "rmask":
+        d["antitarget"] = d["antitarget"][:0]
     return d
 
 
@@ -248,8 +274,13 @@ def _call_corr(fn, a):
     import warnings
     warnings.simplefilter("ignore")
     from cnvlib import fix
-    cn, refm = fix.load_adjust_coverages(a["target"], a["reference"], True, a["do_gc"], a["do_edge"], False, None)
-    cn0, refm0 = fix.load_adjust_coverages(a["target"], a["reference"], True, False, False, False, None)
+    if a["which"] == "rmask":
+        # the repeat-fraction correction belongs to the off-target bins
+        cn, refm = fix.load_adjust_coverages(a["antitarget"], a["reference"], False, False, False, True, None)
+        cn0, refm0 = fix.load_adjust_coverages(a["antitarget"], a["reference"], False, False, False, False, None)
+    else:
+        cn, refm = fix.load_adjust_coverages(a["target"], a["reference"], True, a["do_gc"], a["do_edge"], False, None)
+        cn0, refm0 = fix.load_adjust_coverages(a["target"], a["reference"], True, False, False, False, None)
     return dict(corrected=cn, plain=cn0, ref=refm)
 
 
@@ -281,17 +312,15 @@ def _chk_corr(args, res, old):
     import numpy as np
     from cnvlib import smoothing
     which = old["which"]
-    if which == "rmask":
-        return None
     plain, corr, refm = res["plain"].data.reset_index(drop=True), res["corrected"].data.reset_index(drop=True), res["ref"].data.reset_index(drop=True)
     if len(plain) != len(corr) or len(plain) < 10:
         return None
     if (plain.log2 > -15).sum() <= len(plain) // 2:
         return None
-    if which == "gc":
-        if "gc" not in refm.columns:
+    if which in ("gc", "rmask"):
+        if which not in refm.columns:
             return None
-        key = refm["gc"].values
+        key = refm[which].values
     else:
         key = []
         for c in dict.fromkeys(plain.chromosome):
